@@ -337,7 +337,8 @@ def normalize(index, known=None, rounds=3):
     # whatever unreviewed function is still there and still called is reported
     left = {}
     for q, fi in index.funcs.items():
-        if q.startswith('mitxgraders.') and q not in known and '<locals>' not in q:
+        if q.startswith('mitxgraders.') and q not in known and '<locals>' not in q and \
+                not (fi.name.startswith('__') and fi.name.endswith('__')):
             left[q] = fi
     index.unreviewed = sorted(left)
     report['unreviewed_left'] = sorted(left)
